@@ -218,7 +218,7 @@ OP_KINDS = [
     "insert_node", "split", "join", "lift", "wrap", "set_block_type", "set_node_markup",
     "add_mark", "remove_mark", "add_node_mark", "remove_node_mark", "set_node_attribute",
     "set_doc_attribute", "raw_step", "replace_with_self", "mark_run", "seam_pair", "mark_sweep",
-    "clear_incompatible",
+    "clear_incompatible", "mark_any",
 ]
 
 DEFAULT_MIX = {
@@ -226,7 +226,7 @@ DEFAULT_MIX = {
     "paste_range": 4, "insert_node": 4, "split": 4, "join": 3, "lift": 3, "wrap": 3,
     "set_block_type": 4, "set_node_markup": 2, "add_mark": 5, "remove_mark": 3,
     "add_node_mark": 2, "remove_node_mark": 1, "set_node_attribute": 3, "set_doc_attribute": 2,
-    "raw_step": 3, "replace_with_self": 1, "mark_run": 1, "mark_sweep": 1, "clear_incompatible": 1,
+    "raw_step": 3, "replace_with_self": 1, "mark_run": 1, "mark_sweep": 1, "clear_incompatible": 1, "mark_any": 1,
 }
 
 
@@ -519,6 +519,31 @@ def gen_op_(rng, kind, doc, sel, pool):
             a = min(b, a + rng.randint(0, 2))
         return {"op": "raw_step", "step": {"stepType": rng.choice(["addMark", "addMark", "removeMark"]),
                                            "mark": m.to_json(), "from": a, "to": b}}
+    if kind == "mark_any":
+        # a raw add-mark step with *any* mark type of the schema over (part of) a textblock, whether
+        # or not that textblock admits the mark: what a peer with another idea of the schema sends
+        blocks = []
+
+        def fa(node, pos, parent, i):
+            if node.is_textblock and node.content.size:
+                blocks.append((pos, node))
+            return None
+
+        doc.descendants(fa)
+        if not blocks:
+            return None
+        pos, node = rng.choice(blocks)
+        m = rand_mark(rng, schema)
+        if m is None:
+            return None
+        a, b = pos + 1, pos + 1 + node.content.size
+        r = rng.random()
+        if r < 0.3:
+            a, b = max(0, a - 1), min(size, b + 1)
+        elif r < 0.5 and b - a > 1:
+            a = rng.randint(a, b - 1)
+            b = rng.randint(a + 1, b)
+        return {"op": "raw_step", "step": {"stepType": "addMark", "mark": m.to_json(), "from": a, "to": b}}
     if kind == "seam_pair":
         # two consecutive raw replace steps that meet at one position with *open* slices on both
         # sides of the seam (the second ends where the first inserted, or starts where it ended):
